@@ -4,7 +4,7 @@
 (* ledger (GA): collecting from iterators (Collect), the record-level      *)
 (* checks (views, layout, comparison, hex, ...) that need no ledger state. *)
 (***************************************************************************)
-EXTENDS Heap
+EXTENDS Serde
 
 xVars == <<mem, hx>>
 
@@ -14,9 +14,9 @@ XReset == mem' = NoMem /\ hx' = [relblk |-> <<>>, failed |-> FALSE, ended |-> FA
 XQuiescent == HeapQuiescent
 XInv == HeapInv
 
-RetX(r) == RetCollect(r)
+RetX(r) == RetCollect(r) \/ RetDe(r)
 UnwoundX(u) == UnwoundCollect(u)
-DropX(e, panics) == CollectDrop(e, panics)
+DropX(e, panics) == CollectDrop(e, panics) \/ DeDrop(e, panics)
 
 \* events that carry their own verdict data and need no ledger state
 XEvent(r) ==
@@ -34,6 +34,13 @@ XEvent(r) ==
     \/ /\ r.ev = "realloc" /\ ReallocEv(r) /\ UNCHANGED mem
     \/ /\ r.ev = "alloc_fail" /\ AllocFailEv(r) /\ UNCHANGED mem
     \/ /\ r.ev = "exit" /\ ExitEv(r) /\ UNCHANGED mem
+    \/ /\ r.ev = "ser" /\ SerOK(r) /\ UNCHANGED <<gaVars, xVars>>
+    \/ /\ r.ev = "fmt" /\ FmtOK(r) /\ UNCHANGED <<gaVars, xVars>>
+    \/ /\ r.ev = "de_tuple" /\ DeTuple(r) /\ UNCHANGED xVars
+    \/ /\ r.ev = "shint" /\ SHint(r) /\ UNCHANGED xVars
+    \/ /\ r.ev = "selem" /\ SElem /\ UNCHANGED xVars
+    \/ /\ r.ev = "selem_ret" /\ SElemRet(r) /\ UNCHANGED xVars
+    \/ /\ r.ev = "mkde" /\ MkDe(IF Anonymous THEN NewId ELSE r.id) /\ UNCHANGED xVars
     \/ /\ r.ev = "big" /\ BigOK(r) /\ UNCHANGED <<gaVars, xVars>>
     \/ /\ r.ev = "big_done" /\ r.ok /\ UNCHANGED <<gaVars, xVars>>
 =============================================================================
